@@ -82,10 +82,25 @@ Decay(fmt, v) ==
       [] fmt = "bvcd" -> BinScene(v)
       [] fmt = "snd" -> SndDecay(v)
       [] OTHER -> v
-Representable(fmt, v, ascii) ==
-    CASE fmt = "cmdseq" -> CmdSeqRepresentable(v, ascii)
+\* Which characters a writer can express.  `chars` is the widest class of character in the
+\* value's strings: "ascii", "latin1" (up to U+00FF) or "wide" (beyond).  Command sequences and
+\* SMD meshes are ASCII files; text scenes, binary scenes (strings live in a Python string pool),
+\* soundscripts and materials carry any character; particle systems go through DMX's default
+\* ASCII-only mode.  In the
+\* model's own strings a character outside ASCII is written {hex}; the replayer substitutes it.
+Representable(fmt, v, chars) ==
+    CASE fmt = "cmdseq" -> CmdSeqRepresentable(v, chars = "ascii")
+      [] fmt = "smd" -> chars = "ascii"
+      \* DMX is written in its default (ASCII-safe) mode: anything else must be refused
+      [] fmt = "pcf" -> chars = "ascii"
       [] fmt = "vcd" -> VcdRepresentable(v)
       [] OTHER -> TRUE
+\* scenes.image stores its string pool in one 8-bit encoding: the reader always decodes
+\* Latin-1, the writer encodes Latin-1 unless told otherwise ("default" = argument omitted).
+\* The writer must raise for what its encoding cannot express; what is read back is the same
+\* strings only if writer and reader agree on the bytes.
+ImageWritable(enc, chars) == enc = "utf8" \/ chars # "wide"
+ImageRoundTrips(enc, chars) == IF enc = "utf8" THEN chars = "ascii" ELSE chars # "wide"
 \* reading what was written loses nothing more the second time
 DecayIdempotent(fmt, v) == Decay(fmt, Decay(fmt, v)) = Decay(fmt, v)
 
